@@ -8,7 +8,7 @@ n,para=sys.argv[1],open(sys.argv[2]).read()
 s=open('/verif/tools/SEED_INSTRUCTIONS.md').read()
 s=re.sub(r'/tmp/seed\d+/', f'/tmp/seed{n}/', s)
 s=re.sub(r'## This is an? \w+ round', f'## This is round {n}', s)
-i=s.index('In this round aim for the subtlest')
+i=re.search(r'In this round (aim for the subtlest|do NOT try)', s).start()
 open(f'/tmp/seed{n}/INSTRUCTIONS.md','w').write(s[:i]+para)
 open('/verif/tools/SEED_INSTRUCTIONS.md','w').write(s[:i]+para)
 PY
